@@ -1,7 +1,7 @@
 MUTANTS = [
     dict(id="c13-delta-no-rebase", prop="C13", file="eqsig/fns/peaks_and_crossings.py",
-         old="    values = np.array(values)\n    # rebase to zero as first value\n    values -= values[0]\n    # remove all non-changing values\n    cleaned_values, non_zero_indices = clean_out_non_changing(values)\n    cleaned_values *= np.sign(cleaned_values[1])  # ensure first value is increasing\n    # compute delta peaks for cleaned data\n    cleaned_delta_peak_series = _determine_peak_only_series_4_cleaned_data",
-         new="    values = np.array(values)\n    # remove all non-changing values\n    cleaned_values, non_zero_indices = clean_out_non_changing(values)\n    cleaned_values *= np.sign(cleaned_values[1] - cleaned_values[0])  # ensure first value is increasing\n    # compute delta peaks for cleaned data\n    cleaned_delta_peak_series = _determine_peak_only_series_4_cleaned_data",
+         old="    values = np.array(values, dtype=float)\n    # rebase to zero as first value\n    values -= values[0]\n    # remove all non-changing values\n    cleaned_values, non_zero_indices = clean_out_non_changing(values)\n    cleaned_values *= np.sign(cleaned_values[1])  # ensure first value is increasing\n    # compute delta peaks for cleaned data\n    cleaned_delta_peak_series = _determine_peak_only_series_4_cleaned_data",
+         new="    values = np.array(values, dtype=float)\n    # remove all non-changing values\n    cleaned_values, non_zero_indices = clean_out_non_changing(values)\n    cleaned_values *= np.sign(cleaned_values[1] - cleaned_values[0])  # ensure first value is increasing\n    # compute delta peaks for cleaned data\n    cleaned_delta_peak_series = _determine_peak_only_series_4_cleaned_data",
          why="pseudo-cyclic series no longer rebased: depends on a constant offset"),
     dict(id="c13-clean-first", prop="C13", file="eqsig/fns/peaks_and_crossings.py",
          old="    diff_values = np.ediff1d(values, to_begin=values[0])", new="    diff_values = np.ediff1d(values, to_begin=1)",
@@ -58,8 +58,8 @@ MUTANTS += [
              "        signs = np.where(np.mod(np.arange(len(peak_values)), 2), -1, 1)",
          why="window: more than 20000 local peaks -> alternating sign restarts every 4095 peaks (odd block: phase flips from the 2nd block on)"),
     dict(id="c13-w-delta-f32-250000", prop="C13", file="eqsig/fns/peaks_and_crossings.py",
-         old="    values = np.array(values)\n    # rebase to zero as first value\n    values -= values[0]\n    # remove all non-changing values\n    cleaned_values, non_zero_indices = clean_out_non_changing(values)\n    cleaned_values *= np.sign(cleaned_values[1])  # ensure first value is increasing\n    # compute delta peaks for cleaned data\n    cleaned_delta_peak_series = determine_peak_only_delta_series_4_cleaned_data",
-         new="    values = np.array(values)\n    if len(values) > 250000 and values.dtype == np.float64:\n        values = values.astype(np.float32)  # halve the memory of the working copies of very long records\n    # rebase to zero as first value\n    values -= values[0]\n    # remove all non-changing values\n    cleaned_values, non_zero_indices = clean_out_non_changing(values)\n    cleaned_values *= np.sign(cleaned_values[1])  # ensure first value is increasing\n    # compute delta peaks for cleaned data\n    cleaned_delta_peak_series = determine_peak_only_delta_series_4_cleaned_data",
+         old="    values = np.array(values, dtype=float)\n    # rebase to zero as first value\n    values -= values[0]\n    # remove all non-changing values\n    cleaned_values, non_zero_indices = clean_out_non_changing(values)\n    cleaned_values *= np.sign(cleaned_values[1])  # ensure first value is increasing\n    # compute delta peaks for cleaned data\n    cleaned_delta_peak_series = determine_peak_only_delta_series_4_cleaned_data",
+         new="    values = np.array(values, dtype=float)\n    if len(values) > 250000 and values.dtype == np.float64:\n        values = values.astype(np.float32)  # halve the memory of the working copies of very long records\n    # rebase to zero as first value\n    values -= values[0]\n    # remove all non-changing values\n    cleaned_values, non_zero_indices = clean_out_non_changing(values)\n    cleaned_values *= np.sign(cleaned_values[1])  # ensure first value is increasing\n    # compute delta peaks for cleaned data\n    cleaned_delta_peak_series = determine_peak_only_delta_series_4_cleaned_data",
          why="window: more than 250000 samples -> single-precision working copy in the delta series"),
     dict(id="c13-w-ncyc-carry-1200peaks", prop="C13", file="eqsig/im.py",
          old="    n_eq = np.cumsum(perc, axis=0)\n",
@@ -150,3 +150,32 @@ MUTANTS += [
              "        n_eq = np.cumsum(perc, axis=0)\n",
          why="correct per-exponent streaming above a product threshold: must not be reported"),
 ]
+
+# reverts of fix 0114fbb (peak-only series rebase integer-typed series in floating point): int16 / int32 differences wrap around
+_HEAD = "    values = np.array(values, dtype=float)\n    # rebase to zero as first value\n    values -= values[0]\n    # remove all non-changing values\n    cleaned_values, non_zero_indices = clean_out_non_changing(values)\n    cleaned_values *= np.sign(cleaned_values[1])  # ensure first value is increasing\n    # compute delta peaks for cleaned data\n    cleaned_delta_peak_series = "
+MUTANTS += [
+    dict(id="c13-revert-0114fbb-delta", prop="C13", file="eqsig/fns/peaks_and_crossings.py",
+         old=_HEAD + "determine_peak_only_delta_series_4_cleaned_data", new=_HEAD.replace(", dtype=float", "") + "determine_peak_only_delta_series_4_cleaned_data",
+         why="reverts fix 0114fbb in determine_peaks_only_delta_series: an int16 series is rebased and differenced in int16 (wraps around)"),
+    dict(id="c13-revert-0114fbb-cyclic", prop="C13", file="eqsig/fns/peaks_and_crossings.py",
+         old=_HEAD + "_determine_peak_only_series_4_cleaned_data", new=_HEAD.replace(", dtype=float", "") + "_determine_peak_only_series_4_cleaned_data",
+         why="reverts fix 0114fbb in determine_pseudo_cyclic_peak_only_series: an int16 series is rebased in int16 (wraps around)"),
+]
+
+# reverts of fix 0f3f2c7 (power-law cycle functions take the peak amplitudes in floating point): abs() of the most negative
+# int16 / int32 count wraps around and the series become nan
+MUTANTS += [
+    dict(id="c13-revert-0f3f2c7-ncyc", prop="C13", file="eqsig/im.py",
+         old="    from scipy.interpolate import interp1d\n    values = np.asarray(values, dtype=float)\n",
+         new="    from scipy.interpolate import interp1d\n",
+         why="reverts fix 0f3f2c7 in calc_n_cyc_array_w_power_law"),
+    dict(id="c13-revert-0f3f2c7-amp", prop="C13", file="eqsig/im.py",
+         old="    values = np.asarray(values, dtype=float)\n    a1_peak_inds_end = ",
+         new="    a1_peak_inds_end = ",
+         why="reverts fix 0f3f2c7 in calc_cyc_amp_array_w_power_law (also used by the geometric mean)"),
+    dict(id="c13-revert-0f3f2c7-combined", prop="C13", file="eqsig/im.py",
+         old="    values0 = np.asarray(values0, dtype=float)\n    values1 = np.asarray(values1, dtype=float)\n",
+         new="",
+         why="reverts fix 0f3f2c7 in calc_cyc_amp_combined_arrays_w_power_law"),
+]
+
